@@ -21,7 +21,7 @@ def elem_type(classfull):
     return out.strip()
 
 
-def explore(facts, f, T, is_class, base_rows=None, max_rows=600, ctor=None):
+def explore(facts, f, T, is_class, base_rows=None, max_rows=600, ctor=None, self_alias=False):
     """run f under every combination of the order relations it turns out to branch on (row discovery); returns
     [(rows, domain, [Path])]"""
     results = []
@@ -36,6 +36,7 @@ def explore(facts, f, T, is_class, base_rows=None, max_rows=600, ctor=None):
         if len(seen) > max_rows: raise Inconclusive(f'more than {max_rows} order-relation rows for {f.name}', f.shortloc())
         dom = ContDomain(T, is_class, rows=rows)
         dom.ctor = bool(f.d.get('ctor')) if ctor is None else ctor
+        dom.self_alias = self_alias
         c_ = facts.cls(f.d.get('classfull') or '') or {}
         dom.no_default_init = {x['name'] for x in c_.get('fields', []) if not x.get('init')}      # members without a default member initialiser start indeterminate in a constructor
         dom.ord_vals = ord_of          # shared over the runs: an atom decided by the row is not consulted again
@@ -190,8 +191,49 @@ def array_rules(facts, rep):
                 for P in paths:
                     if P.end == 'noreturn': continue
                     check_array_path(rep, f, label, rows, dom, P, is_class, base, tc, copy_only)
+            if (f.d.get('moveassign') or f.d.get('copyassign')) and not copy_only:
+                # a = a / a = std::move(a): the same operation with the parameter aliasing *this (every field shared); the object must
+                # come out as it went in or at least destructible: elements alive == m_size, storage not released
+                try: res2 = explore(facts, f, T, is_class, self_alias=True)
+                except Inconclusive as e:
+                    rep.inconclusive('AR.3', label + ' (self-assignment)', f.shortloc(), str(e)); res2 = []
+                for rows, dom, paths in res2:
+                    for P in paths:
+                        if P.end in ('noreturn', 'throw'): continue
+                        check_self_assign(rep, f, label, rows, dom, P, is_class)
     rep.count('array_functions', nfn)
     rep.floor('Array member functions analysed', nfn, 40)
+
+
+def check_self_assign(rep, f, label, rows, dom, P, is_class):
+    rs = row_str(rows)
+    g = Ghost(dom, is_class)
+    g.live['data0'] = Lin.sym('S'); g.alloc['data0'] = None
+    for k, node, p in P.events:
+        if k != 'c': continue
+        if p[0] == 'free':
+            b = p[1].base if isinstance(p[1], Ptr) else None
+            if b: g.freed.add(b)
+        elif p[0] == 'realloc' and isinstance(p[1], Ptr): g.freed.add(p[1].base)
+        elif p[0] == 'range' and p[1] == 'destroy' and p[2][0] == 'raw' and p[2][1] in g.live: g.live[p[2][1]] = p[3]
+        elif p[0] == 'elem' and p[1] == 'destroy' and isinstance(p[2], Ptr) and p[2].base in g.live and isinstance(p[2].off, Lin): g.live[p[2].base] = p[2].off
+        elif p[0] == 'alloc': g.live[p[2].base] = Lin.const(0)
+        elif p[0] == 'range' and p[1] == 'construct' and p[2][0] == 'raw' and p[2][1] in g.live: g.live[p[2][1]] = p[4]
+    arr = field(P, 'this', 'm_array', dom); size = field(P, 'this', 'm_size', dom)
+    inst = f'{label} applied to the object itself (x = x / x = std::move(x)) {rs}: the object stays destructible'
+    site = f.shortloc()
+    if not isinstance(arr, Ptr):
+        rep.inconclusive('AR.3', inst, site, f'm_array becomes {arr}'); return
+    b = arr.base
+    try: ms = list(size_models(rows, dom, extra={'S'}))
+    except LookupError: ms = []
+    nonempty = bool(ms) and any(m_.get('S', 0) > 0 for m_ in ms)
+    if b in g.freed and b != 'null' and nonempty:
+        rep.violation('AR.3', inst, site, f'after assigning the array to itself m_array points to the block {b}, which this very call released, with m_size = {size}: every later access and the destructor use freed storage (the elements were destroyed before they were "taken over")',
+                      key=f'AR.3|self-assign|{strip_targs(f.qname)}', fn=f.name)
+    elif is_class and b in g.live and b != 'null' and nonempty and g.eq(g.live[b], size) is False:
+        rep.violation('AR.3', inst, site, f'after assigning the array to itself m_size is {size} but {g.live[b]} element(s) are alive', key=f'AR.3|self-assign|{strip_targs(f.qname)}', fn=f.name)
+    else: rep.ok('AR.3', inst, site)
 
 
 COPY_MEMCPY = 'elements of a type that is not trivially copyable are copied with memcpy: no copy constructor runs, so the copy shares whatever the source elements own or refer to (and both arrays later destroy it)'
